@@ -507,8 +507,10 @@ class RandGen:
                 return ("a", [self.wire_for(t["e"], depth - 1) for _ in range(r.randint(0, 3))])
             kvs, seen = [], set()
             for _ in range(r.randint(0, 3)):
+                saved = self.ncls
                 kw = self.scalar(t["key"])
                 if kw[0] in ("a", "m", "c", "o") or repr(kw) in seen:
+                    self.ncls = saved        # a dropped key must not leave class numbers behind
                     continue
                 seen.add(repr(kw))
                 kvs += [kw, self.wire_for(t["e"], depth - 1)]
